@@ -118,6 +118,17 @@ def run_seed(sdir, known_oids):
         hints = [o for o in failed if o not in known_oids and G.obligations[o]['kind'] == 'proof-hint']
         fo = [o for o in failed if o not in known_oids and G.obligations[o]['kind'] != 'proof-hint']
         props = sorted({t for o in fo for t in G.obligations[o]['tags']})
+        # the bounded stand-ins, when the change touches a file they enumerate
+        ptxt = open(os.path.join(sdir, 'patch.diff')).read()
+        if any(f in ptxt for f in ('libxcp/src/backup.rs', 'libxcp/src/config.rs', 'libxcp/src/drivers/mod.rs', 'src/main.rs')):
+            from . import bounded
+            from .checks import BOUNDED_KINDS
+            b = bounded.backup_bounded(overlay=wd)
+            kinds = {f.split(' ::')[0].strip() for f in b.get('failures', [])}
+            bp = sorted(p for p, ks in BOUNDED_KINDS.items() if ks & kinds)
+            if bp:
+                fo = fo + ['bounded:' + k for k in sorted(kinds)]
+                props = sorted(set(props) | set(bp))
         hprops = sorted({t for o in hints for t in G.obligations[o]['tags']} - set(props))
         skip = set(skip) | set(G.anchor_skipped)
         return {'seed': os.path.basename(sdir), 'status': 'alarm' if fo else ('undecided' if (hints or skip) else 'silent'), 'props': props, 'undecided_props': hprops,
@@ -173,6 +184,14 @@ def run_harmless(path, known_oids):
         hints = [o for o in failed if o not in known_oids and G.obligations[o]['kind'] == 'proof-hint']
         if fo:
             return {'patch': name, 'status': 'FALSE-ALARM', 'props': sorted({t for o in fo for t in G.obligations[o]['tags']}), 'by': fo[:6]}
+        ptxt = open(path).read()
+        if any(f in ptxt for f in ('libxcp/src/backup.rs', 'libxcp/src/config.rs', 'libxcp/src/drivers/mod.rs', 'src/main.rs')):
+            from . import bounded
+            b = bounded.backup_bounded(overlay=wd)
+            if not b.get('built'):
+                return {'patch': name, 'status': 'undecided', 'detail': 'bounded stand-in did not build: %s' % b.get('tail', '')[-200:]}
+            if b.get('failures'):
+                return {'patch': name, 'status': 'FALSE-ALARM', 'props': ['bounded'], 'by': b['failures'][:3]}
         if tool and not skip:
             return {'patch': name, 'status': 'undecided', 'detail': tool[0][:200]}
         skip = set(skip) | set(G.anchor_skipped)
